@@ -428,8 +428,13 @@ func monitorC05(g *groundTruth, c monCfg, attempts []fAttempt, gkOf func(group s
 				if !sr {
 					return &violation{"resolved-alert-sent-with-send_resolved-false", at.String()}
 				}
-				if g.firing(x.Name).contains(at.At) {
-					return &violation{"reported-resolved-while-firing", fmt.Sprintf("%s lists %s resolved at %v, but per the submitted timeline it fires during %v", at.String(), x.Name, at.At, g.firing(x.Name))}
+				// The flush took its snapshot between its tick and this attempt (retries re-send the snapshot): the claim
+				// "resolved" is false only if the alert fired during that whole stretch. An alert that fires again while
+				// its resolved notification is still being retried is the case the property provides for.
+				for _, f := range g.firing(x.Name) {
+					if f.from <= at.Tick && f.to > at.At {
+						return &violation{"reported-resolved-while-firing", fmt.Sprintf("%s lists %s resolved at %v (flush tick %v), but per the submitted timeline it fires during %v", at.String(), x.Name, at.At, at.Tick, g.firing(x.Name))}
+					}
 				}
 			}
 		}
